@@ -528,7 +528,7 @@ pub fn corner_tuples(fam: &str) -> Vec<Vec<Arg>> {
         "Weibull" => vec![f(&[1.0, 2.0]), f(&[0.5, 1.0]), f(&[2.0, 3.0])],
         "Pareto" => vec![f(&[1.0, 1.0]), f(&[2.0, 2.0]), f(&[0.5, 3.0])],
         "FisherSnedecor" => vec![f(&[2.0, 2.0]), f(&[2.0, 1.0]), f(&[1.0, 2.0]), f(&[2.0, 4.0]), f(&[2.0, 6.0]), f(&[100.0, 100.0])],
-        "Poisson" => vec![f(&[0.5]), f(&[29.5]), f(&[30.5]), f(&[1.0])],
+        "Poisson" => vec![f(&[0.5]), f(&[29.5]), f(&[30.5]), f(&[1.0]), f(&[0.05])],
         "Exp" => vec![f(&[1.0]), f(&[1e-2]), f(&[1e2])],
         "Dirac" => vec![f(&[0.0]), f(&[-2.5])],
         _ => vec![],
